@@ -90,7 +90,9 @@ func init() {
 func showWalk(f []string) string {
 	src := unhx(f[0])
 	mask := -1
-	fmt.Sscanf(f[1], "%d", &mask)
+	if len(f) > 1 {
+		fmt.Sscanf(f[1], "%d", &mask)
+	}
 	stmts, err := parser.Parse(src)
 	if err != nil {
 		return "ERR"
